@@ -138,6 +138,9 @@ def build_args(cfg, call, S):
         kw["select"] = {"mesh": sel}
     elif k == "cpus":
         kw["cpu_list"] = list(call["cpus"])
+    elif k == "position+cpus":
+        kw["cpu_list"] = list(call["cpus"])
+        kw["select"] = {"mesh": pos_fns()}
     elif k == "groups":
         kw["select"] = list(call["groups"])
     elif k == "off":
@@ -246,7 +249,7 @@ def files_read_for_particles(cfg, ds):
 
 def compare_dataset(cfg, lay, call, ds, fresh=True):
     part_cpus = None
-    if "position" in call["kind"] and cfg["haspart"]:
+    if "position" in call["kind"] and cfg["haspart"] and call["kind"] != "position+cpus":
         part_cpus = files_read_for_particles(cfg, ds)
         if part_cpus is None or not part_cpus:
             part_cpus = lay["exp"][call["req"] - 1]["codecpus"]
@@ -509,7 +512,8 @@ def run_c13(rep, tier, seed):
 
 CLASS_CALLS = {
     "full": lambda c: c["kind"] == "full", "level": lambda c: c["kind"] == "level", "value": lambda c: c["kind"] == "value",
-    "position": lambda c: c["kind"] in ("position", "position+value", "position+level"), "cpus": lambda c: c["kind"] == "cpus",
+    "position": lambda c: c["kind"] in ("position", "position+value", "position+level"),
+    "position_cpus": lambda c: c["kind"] == "position+cpus", "cpus": lambda c: c["kind"] == "cpus",
     "g_mesh": lambda c: c["kind"] == "groups" and c["groups"] == ["mesh"], "g_part": lambda c: c["kind"] == "groups" and c["groups"] == ["part"],
     "g_mesh_part": lambda c: c["kind"] == "groups" and c["groups"] == ["mesh", "part"], "g_sink": lambda c: c["kind"] == "groups" and c["groups"] == ["sink"],
     "off_part": lambda c: c["kind"] == "off" and c["off"] == ["part"], "off_mesh": lambda c: c["kind"] == "off" and c["off"] == ["mesh"],
@@ -632,7 +636,7 @@ def run_c04_loads(rep, tier, seed):
     nh, ns = (150, 60) if tier == "quick" else (2500, 600)
     cfgs = make_cfgs(tier, seed + 6, ns, family=False, n_hilbert3=nh)
     lays = tlc_layouts(rep, cfgs, "c04")
-    run_batch(rep, cfgs, lays, {"position", "position+value", "position+level", "value", "cpus"}, "selective-loads", with_log=False)
+    run_batch(rep, cfgs, lays, {"position", "position+value", "position+level", "position+cpus", "value", "cpus"}, "selective-loads", with_log=False)
 
 
 # --------------------------------------------------------------------------- C14: particles and sinks
